@@ -18,9 +18,13 @@ CHECK = {
     "entries": [
         {"fn": P + "vC31_turns", "replay": "model-only", "cover_optional": ("pending",)},
         {"fn": P + "vC31_deactivate", "replay": "model-only"},
-        {"fn": P + "vC31_activation", "replay": "model-only", "cases_quick": {"first": [0, 1], "retained": [0, 1]}, "cases_thorough": {"first": [0, 1], "retained": [0, 1]},
+        # first caller = GrainIdentity/GrainOf path (both pre-states), first caller = TellGrain (quick: retained process; thorough: both pre-states)
+        {"fn": P + "vC31_activation", "replay": "model-only", "cases": {"first": [0], "retained": [0, 1]},
          "opts": {"substitute": SUB_ACT, "unwind": 6, "rounds": 2}, "cover_optional": ("all-received",)},
-        {"fn": P + "vC31_resend", "replay": "model-only", "opts": {"substitute": SUB_RESEND, "unwind": 6, "rounds": 2},
+        {"fn": P + "vC31_activation", "replay": "model-only", "cases_quick": {"first": [1], "retained": [1]}, "cases_thorough": {"first": [1], "retained": [0, 1]},
+         "opts": {"substitute": SUB_ACT, "unwind": 6, "rounds": 2}, "cover_optional": ("all-received",)},
+        # thorough only: ~4 min of solver time
+        {"fn": P + "vC31_resend", "replay": "model-only", "tiers": ("thorough",), "opts": {"substitute": SUB_RESEND, "unwind": 6, "rounds": 2},
          "cover_optional": ("sent-after-deactivation", "fresh-instance", "handled-by-old-or-dropped")},
     ],
     "opts": {"rounds": 3, "unwind": 4, "unwind_mode": "assume", "feasibility": False, "substitute": SUB},
